@@ -756,7 +756,14 @@ func (e *Evaluator) evalCallExp(
 			fun := e.ctx.CustomFunc.Arr[funcName]
 			nativeElems := e.objectsToNativeType(receiverObj.(*object.Array).Elements)
 			res := fun(nativeElems, nativeArgs...)
-			return object.NativeToObject(res)
+
+			// the returned slice can hold values of unsupported types
+			resObj := object.NativeToObject(res)
+			if resObj == nil {
+				return e.newError(node, fail.ErrUnsupportedType, res)
+			}
+
+			return resObj
 		case object.INT_OBJ:
 			fun := e.ctx.CustomFunc.Int[funcName]
 			res := fun(int(receiverObj.(*object.Int).Value), nativeArgs...)
